@@ -170,6 +170,14 @@ class C02(Check):
                     continue
                 out.stats["rebuilt_through_public_constructor"] += 1
                 m.message("%s (rebuilt through the public constructor from a %s)" % (k, kind), k, new, docs=False)
+                # ... and so has a copy of it that went through pickle / deepcopy / copy (a client that caches the model between runs)
+                if (len(k) + i) % 2 == 0:
+                    import pickle as _pk, copy as _cp
+                    how = ["pickle-0", "pickle-highest", "deepcopy", "copy"][(len(k) + i) // 2 % 4]
+                    cp = (_pk.loads(_pk.dumps(t, 0)) if how == "pickle-0" else _pk.loads(_pk.dumps(t, _pk.HIGHEST_PROTOCOL)) if how == "pickle-highest"
+                          else _cp.deepcopy(t) if how == "deepcopy" else _cp.copy(t))
+                    out.stats["copied_model_objects"] += 1
+                    m.message("%s (copy made with %s)" % (k, how), k, cp, docs=False)
                 # ... and with the constants placed between the fields: the layout only depends on the fields and their order
                 try:
                     mixed, _a2 = rebuild(t, "list", interleave=True)
